@@ -204,7 +204,7 @@ def run(ctx):
         in_group = set()
         for _ in range(int(rng.integers(6, 41 if ctx.tier == "thorough" else 26))):
             step = str(rng.choice(["new", "place", "place", "set", "set", "set_bad", "bound", "bound_bad", "sub",
-                                   "copy", "freeze", "read", "read", "pdict", "set_invalid"]))
+                                   "copy", "freeze", "read", "read", "pdict", "set_invalid", "rewrite"]))
             try:
                 if step == "new" or not params:
                     role = str(rng.choice(["r", "phi", "loss"]))
@@ -307,6 +307,18 @@ def run(ctx):
                                 nv = "x"
                         setattr(p, which, nv)
                         trace.append([step, which, nv])
+                elif step == "rewrite":
+                    # an in-place rewrite keeps the transformation (C09); the circuit must keep following its parameters
+                    tgt = circuits[int(rng.integers(len(circuits)))]
+                    rw = str(rng.choice(["compress_mode_swaps", "remove_non_adjacent_bs", "unpack_groups"]))
+                    if rng.random() < 0.5 and Builder.numbered(tgt) >= 3:
+                        a = int(rng.integers(Builder.numbered(tgt) - 1))
+                        tgt.mode_swaps({a: a + 1, a + 1: a})          # something for the rewrites to work on
+                        tgt.mode_swaps({a: a + 1, a + 1: a})
+                    getattr(tgt, rw)()
+                    ctx.bucket("rewritten_in_place")
+                    updated_since_read = True
+                    trace.append(["rewrite", rw, circuits.index(tgt)])
                 elif step == "copy":
                     src = circuits[int(rng.integers(len(circuits)))]
                     circuits.append(src.copy())
